@@ -83,4 +83,8 @@ theorem shape_processAuthorizedRequest_ok : Oidc.Shapes.Shape_processAuthorizedR
 /-! further obligations against the regenerated program text (`Oidc/Shapes.lean`): constructor wiring and URL builders -/
 theorem text_New_ok : Oidc.Shapes.Text_New := by unfold Oidc.Shapes.Text_New; rfl
 
+
+/-! ## Program text of the helpers these theorems also rest on (constructors, accessors, token endpoint, configuration) -/
+theorem text_handleError_ok : Oidc.Shapes.Text_handleError := by unfold Oidc.Shapes.Text_handleError; rfl
+
 end Oidc.Props.C10
